@@ -42,6 +42,7 @@ import Ctrmml.Proofs.TickLoop
 import Ctrmml.Proofs.MdUpd
 import Ctrmml.Proofs.MdSched
 import Ctrmml.Proofs.MdTable
+import Ctrmml.Proofs.MdSlur
 import Ctrmml.Spec.Schedule
 namespace Ctrmml.C07
 open Ctrmml Ctrmml.MdDriver Tables
@@ -559,6 +560,104 @@ theorem C07_schedule_fm_tempo_partial (d : Data) (song : Song) (tags : Vgm.Tags)
     (TickStream.hooks_of song root (fun t => t ≠ ev_SLUR) (by decide) hnoslur) _ hrel k
     (fun j hj => h6 j (by omega))
 
+/-- **Slurred notes, per update (FM channel; any track, slurs allowed, any pass).**  Let an FM
+channel of the model be in good standing (`Base`: its track, no player error, drum mode off; no
+key-on pending) and related to the looping list machine `m` (`TickStream.RelX`, established at
+the start of the track by `TickStream.relX_init` and kept by every update).  Let `evs` be the
+events `m` delivers in the next `n` ticks and `sl = slurIn c evs` — the slur flag is set before the
+update or a `SLUR` command is among `evs`.  One `MD_Channel::update(n)` — unless it ends in an
+error — leaves the channel related to the machine `n` ticks later, in good standing, and:
+ * writes only key-off / key-on words of this channel to register 0x28;
+ * writes NO key-on when `sl` holds: slurred notes are not re-keyed (and a key-on implies a note
+   or tie among `evs`); without `sl`, a note among `evs` has the key-on as the last key write and
+   a key-off before it;
+ * a key-off is written for a rest / end among `evs`; a note writes one only if the slur flag was
+   clear before the update, or an instrument change is pending or commanded in this update (the
+   instrument is then loaded at the note: `write_fm_4op` keys off) — a slurred note writes none,
+   only its frequency changes (`chAfter`: `update_pitch` runs in every update, key-on or not:
+   `C07_pitch_value_partial`);
+ * a note among `evs` clears the slur flag at the end of the update; without note and tie the
+   flag is `sl` afterwards.
+So inside one update the flag is only ever set: a `SLUR` AFTER a note start of the same update,
+or two note starts in one update of which the first is slurred, suppress the key-on of that
+update altogether — where the schedule oracle stops judging the channel ("crowded update"). -/
+theorem C07_slur_update_partial (d : Data) (song : Song) (root : List Event) (b i : Nat) (hi : i < 3) (hb : b < 2)
+    (hplain : TickStream.PlainCode song root) (cEnd : Player.Core) (B : Nat) (hend : TickStream.EndOK song root cEnd)
+    (hB : 2 * B + 2 ≤ PlayerCh.settleFuel) (n : Nat) (g : G) (c : Ch) (m : TickStream.LX)
+    (hbase : Base root c) (hk : c.kind = .fm b i) (hg : g.err = none) (hkon : c.keyOn = false)
+    (hrel : TickStream.RelX song root cEnd B ⟨c.ps.core, c.ps.acc⟩ m) :
+    (chUpdate d song n g c).1.err.isSome = true ∨
+      (TickStream.RelX song root cEnd B ⟨(chUpdate d song n g c).2.1.ps.core, (chUpdate d song n g c).2.1.ps.acc⟩
+          (TickStream.lxAfter n m) ∧
+       Base root (chUpdate d song n g c).2.1 ∧ (chUpdate d song n g c).2.1.kind = .fm b i ∧
+       (chUpdate d song n g c).2.1.keyOn = false ∧
+       (∀ x ∈ keys (chUpdate d song n g c).2.2, x = koff b i ∨ x = kon b i) ∧
+       (kon b i ∈ keys (chUpdate d song n g c).2.2 →
+          slurIn c (TickStream.lxRun n m).flatten = false ∧
+            ∃ e ∈ (TickStream.lxRun n m).flatten, e.type = ev_NOTE ∨ e.type = ev_TIE) ∧
+       ((∃ e ∈ (TickStream.lxRun n m).flatten, e.type = ev_NOTE) → slurIn c (TickStream.lxRun n m).flatten = false →
+          (keys (chUpdate d song n g c).2.2).getLast? = some (kon b i) ∧ koff b i ∈ keys (chUpdate d song n g c).2.2) ∧
+       ((∃ e ∈ (TickStream.lxRun n m).flatten, e.type = ev_REST ∨ e.type = ev_END) →
+          koff b i ∈ keys (chUpdate d song n g c).2.2) ∧
+       (koff b i ∈ keys (chUpdate d song n g c).2.2 →
+          ∃ e ∈ (TickStream.lxRun n m).flatten, e.type = ev_TIE ∨ e.type = ev_REST ∨ e.type = ev_END ∨
+            (e.type = ev_NOTE ∧ (c.slur = false ∨ c.flag ev_INS = true ∨
+              ∃ e' ∈ (TickStream.lxRun n m).flatten, e'.type = ev_INS))) ∧
+       ((∃ e ∈ (TickStream.lxRun n m).flatten, e.type = ev_NOTE) → (chUpdate d song n g c).2.1.slur = false) ∧
+       ((¬ ∃ e ∈ (TickStream.lxRun n m).flatten, e.type = ev_NOTE ∨ e.type = ev_TIE) →
+          (chUpdate d song n g c).2.1.slur = slurIn c (TickStream.lxRun n m).flatten)) := by
+  obtain ⟨s', hrun, hrel'⟩ := TickStream.lx_sim_run song root cEnd B hend hB n _ m hrel
+  rcases chUpdate_slur_keys d song root (TickStream.plainHooks_of song root hplain) b i hi hb n g c hbase hk hg hkon s' _ hrun
+    with h | ⟨a1, a2, a3, a4, a5, a6, a7, a8, a9, a10, a11, a12⟩
+  · exact Or.inl h
+  · refine Or.inr ⟨?_, a3, a4, a5, a6, a7, a8, a9, a10, a11, a12⟩
+    have : (⟨(chUpdate d song n g c).2.1.ps.core, (chUpdate d song n g c).2.1.ps.acc⟩ : Player.PState) = s' := by
+      cases s'; simp only [Player.PState.mk.injEq]; exact ⟨a1, a2⟩
+    rw [this]; exact hrel'
+
+/-- **PSG melody channel, per update (any track, any pass).**  For a PSG melody channel
+(`kind = psg i`, tracks G–I) in good standing and related to the looping list machine `m`, one
+`MD_Channel::update(n)` — unless it ends in an error — leaves it related to the machine `n` ticks
+later, and with `atts i` = the attenuation values written to the channel's volume register:
+ * **attenuation at key-on**: if a note is among the events of these ticks, no slur is pending
+   or commanded (`slurIn`), the track has not ended in these ticks and the channel's envelope
+   starts with a level byte `d0 > 0x0f` (every instrument envelope and the default envelope do),
+   then the LAST attenuation write of the update is `psgAtt coarse vol d0` — the attenuation of
+   the volume setting in force (`C07_attenuation_antitone`) plus the first envelope level —
+   written by the envelope restart after the ticks, and the envelope stands behind its first byte;
+ * **key-off at the end of the track = attenuation 15**: if the last event of these ticks is `END`
+   and the machine has stopped, the last attenuation write of the update is 15.
+(A rest only releases the envelope: when the attenuation reaches 15 after it depends on the
+envelope program, C11's subject; the tone divider is written by `update_pitch` when the pitch
+changed, key-on or not.) -/
+theorem C07_psg_update_partial (d : Data) (song : Song) (root : List Event) (i : Nat) (hi : i < 3)
+    (hplain : TickStream.PlainCode song root) (cEnd : Player.Core) (B : Nat) (hend : TickStream.EndOK song root cEnd)
+    (hB : 2 * B + 2 ≤ PlayerCh.settleFuel) (n : Nat) (g : G) (c : Ch) (m : TickStream.LX)
+    (hbase : Base root c) (hk : c.kind = .psg i) (hg : g.err = none) (hkon : c.keyOn = false)
+    (hrel : TickStream.RelX song root cEnd B ⟨c.ps.core, c.ps.acc⟩ m) :
+    (chUpdate d song n g c).1.err.isSome = true ∨
+      (TickStream.RelX song root cEnd B ⟨(chUpdate d song n g c).2.1.ps.core, (chUpdate d song n g c).2.1.ps.acc⟩
+          (TickStream.lxAfter n m) ∧
+       Base root (chUpdate d song n g c).2.1 ∧ (chUpdate d song n g c).2.1.kind = .psg i ∧
+       ((∃ e ∈ (TickStream.lxRun n m).flatten, e.type = ev_NOTE) → slurIn c (TickStream.lxRun n m).flatten = false →
+          (TickStream.lxAfter n m).enabled = true →
+          ∀ d0, (chUpdate d song n g c).2.1.envData[0]? = some d0 → d0 > 0x0f →
+            (atts i (chUpdate d song n g c).2.2).getLast? =
+              some (psgAtt (chUpdate d song n g c).2.1.coarse ((chUpdate d song n g c).2.1.var ev_VOL_FINE) d0 % 16) ∧
+            (chUpdate d song n g c).2.1.envPos = 1 ∧ (chUpdate d song n g c).2.1.envDelay = d0 ∧
+            (chUpdate d song n g c).2.1.keyOn = false ∧ (chUpdate d song n g c).2.1.slur = false) ∧
+       (∀ e, (TickStream.lxRun n m).flatten.getLast? = some e → e.type = ev_END → (TickStream.lxAfter n m).enabled = false →
+          (atts i (chUpdate d song n g c).2.2).getLast? = some 15)) := by
+  obtain ⟨s', hrun, hrel'⟩ := TickStream.lx_sim_run song root cEnd B hend hB n _ m hrel
+  rcases chUpdate_psg d song root (TickStream.plainHooks_of song root hplain) i hi n g c hbase hk hg hkon s' _ hrun
+    with h | ⟨a1, a2, a3, a4, a5, a6⟩
+  · exact Or.inl h
+  · have hen : s'.acc.enabled = (TickStream.lxAfter n m).enabled := hrel'.1
+    refine Or.inr ⟨?_, a3, a4, fun h1 h2 h3 => a5 h1 h2 (hen.trans h3), fun e h1 h2 h3 => a6 e h1 h2 (hen.trans h3)⟩
+    have : (⟨(chUpdate d song n g c).2.1.ps.core, (chUpdate d song n g c).2.1.ps.acc⟩ : Player.PState) = s' := by
+      cases s'; simp only [Player.PState.mk.injEq]; exact ⟨a1, a2⟩
+    rw [this]; exact hrel'
+
 /-! ### non-vacuity of the whole-log theorems -/
 /-- FM channel A: `note 40 (on 2, off 1)  L  note 42 (on 2, off 2)` -/
 def exLoopRoot : List Event := [⟨ev_NOTE, 40, 2, 1⟩, ⟨ev_SEGNO, 0, 0, 0⟩, ⟨ev_NOTE, 42, 2, 2⟩]
@@ -627,6 +726,49 @@ example :
     (match exportOps { ins := [] } exLoopSong exNoTags with
       | .ok ops => delaySum ops
       | .error _ => 0) = 735 * 7 := by
+  decide +kernel
+
+/-- the hypotheses of `C07_slur_update_partial` / `C07_psg_update_partial` hold at the start of a track
+(FM channel A and PSG channel G on the track of the examples above): `mkCh` leaves the channel in
+good standing, `relX_init` relates it to the looping list machine loaded with `perf` -/
+example :
+    Base exLoopRoot (mkCh { ins := [] } 0 exLoopRoot).1 ∧ (mkCh { ins := [] } 0 exLoopRoot).1.kind = .fm 0 0 ∧
+    (mkCh { ins := [] } 0 exLoopRoot).1.keyOn = false ∧
+    Base exLoopRoot (mkCh { ins := [] } 6 exLoopRoot).1 ∧ (mkCh { ins := [] } 6 exLoopRoot).1.kind = .psg 0 ∧
+    (mkCh { ins := [] } 6 exLoopRoot).1.envData[0]? = some 0x10 ∧
+    TickStream.RelX exLoopSong exLoopRoot ⟨.root, exLoopRoot.length, []⟩ 49999
+      ⟨(mkCh { ins := [] } 0 exLoopRoot).1.ps.core, (mkCh { ins := [] } 0 exLoopRoot).1.ps.acc⟩ (TickStream.lxInit exLoopItems) := by
+  have hall := TickStream.songNoEnd_of_all exLoopSong exLoopRoot (by decide)
+  refine ⟨(mkCh_base _ exLoopRoot 0).1, rfl, rfl, (mkCh_base _ exLoopRoot 6).1, rfl, rfl, ?_⟩
+  have hfuel := TickStream.fuel_of_run exLoopSong exLoopRoot 3
+    [.hook ⟨ev_NOTE, 40, 2, 1⟩ ⟨ev_NOTE, 40, 2, 1⟩, .hook ⟨ev_SEGNO, 0, 0, 0⟩ ⟨ev_SEGNO, 0, 0, 0⟩, .hook ⟨ev_NOTE, 42, 2, 2⟩ ⟨ev_NOTE, 42, 2, 2⟩]
+    (2 * 49999 + 2) rfl (by decide)
+  exact TickStream.relX_init exLoopSong exLoopRoot hall.1 hall.2 exLoopItems rfl 49999
+    (fun k outs h => by have := hfuel k outs h; omega)
+    (TickStream.segTop_one_segno exLoopSong exLoopRoot hall.1 [⟨ev_NOTE, 40, 2, 1⟩] [⟨ev_NOTE, 42, 2, 2⟩] ⟨ev_SEGNO, 0, 0, 0⟩ rfl
+      hall.2 (by decide) [Expand.item ⟨ev_NOTE, 40, 2, 1⟩] [Expand.item ⟨ev_NOTE, 42, 2, 2⟩] rfl rfl (by decide) (by decide))
+
+/-- a slur chain on FM channel A, `c4(2) & d4(2) & e4(2) r(1)` at one tick per update: key-off and key-on
+for the first note only, NO key write for the two slurred notes (updates 2 and 4; their frequency words are
+written), key-off at the rest (update 6) and at the end of the track (update 7) -/
+example :
+    ((List.range 8).map fun k => keysV (updOps { ins := [] }
+      { tracks := [(0, [⟨ev_NOTE, 40, 2, 0⟩, ⟨ev_SLUR, 0, 0, 0⟩, ⟨ev_NOTE, 42, 2, 0⟩, ⟨ev_SLUR, 0, 0, 0⟩, ⟨ev_NOTE, 44, 2, 0⟩,
+          ⟨ev_REST, 0, 0, 1⟩])] }
+      (playSong { ins := [] } { tracks := [(0, [⟨ev_NOTE, 40, 2, 0⟩, ⟨ev_SLUR, 0, 0, 0⟩, ⟨ev_NOTE, 42, 2, 0⟩, ⟨ev_SLUR, 0, 0, 0⟩,
+          ⟨ev_NOTE, 44, 2, 0⟩, ⟨ev_REST, 0, 0, 1⟩])] }).1 k)) =
+    [[0, 0xf0], [], [], [], [], [], [0], [0]] := by
+  decide +kernel
+
+/-- PSG channel G, `v12 c4(2+1)` with the default envelope (first byte 0x10): the attenuation written at
+the key-on update is `psgAtt true 12 0x10 = 3` (twice: by the pending volume change at the note, then — last —
+by the envelope restart); the synthetic rest (update 2) releases the envelope to 15; the
+end of the track (update 3) writes 15 again -/
+example :
+    ((List.range 4).map fun k => atts 0 (updWrs { ins := [] }
+      { tracks := [(6, [⟨ev_VOL, 12, 0, 0⟩, ⟨ev_NOTE, 40, 2, 1⟩])] }
+      (playSong { ins := [] } { tracks := [(6, [⟨ev_VOL, 12, 0, 0⟩, ⟨ev_NOTE, 40, 2, 1⟩])] }).1 k)) =
+    [[3, 3], [], [15], [15]] ∧ psgAtt true 12 0x10 = 3 := by
   decide +kernel
 
 /-! ### the full statement (not proved; decided per export by the schedule oracle) -/
